@@ -57,6 +57,7 @@ CASES = {
     ]),
     "happy": ("C17", "Trace_Happy", [
         ("a failure recorded as success", lambda e: e.get("ev") == "happy" and e.get("res") == "err", setv("res", "ok")),
+        ("a successful race recorded as ten seconds slower", lambda e: e.get("ev") == "happy" and e.get("res") == "ok", bump("elapsed", 10000)),
         ("attempt order reversed", lambda e: e.get("ev") == "happy" and len(e.get("spawns", [])) >= 2 and e["spawns"][0] != e["spawns"][-1], lambda e: dict(e, spawns=list(reversed(e["spawns"])))),
     ]),
     "wdsched": ("C13", "Trace_Watchdog", [
